@@ -1,5 +1,5 @@
-"""TdmsSystem replay: write sessions -> crash -> readers (eager / lazy, with / without the writer's index file) on a
-scratch directory."""
+"""TdmsSystem replay: write sessions -> crash -> defragment -> further sessions -> readers (eager / lazy, with /
+without the index file) on a scratch directory."""
 import io
 import os
 import shutil
@@ -46,6 +46,7 @@ def replay_system_case(case):
     writer = None
     f = None
     chans = {}
+    copy_segments = 0      # segments of the file that stem from the last defragment (crash positions count after them)
 
     def fail(i, kind, **kw):
         fails.append(({"kind": "system", "what": kind, "op": hist[i]["op"]},
@@ -75,7 +76,7 @@ def replay_system_case(case):
                 elif op == "crash":
                     data = open(path, "rb").read()
                     evs = parser.parse(data)
-                    ev = evs[o["cut"]["j"] - 1]
+                    ev = evs[copy_segments + o["cut"]["j"] - 1]
                     kind = o["cut"]["kind"]
                     if kind == "leadin":
                         at = ev["pos"] + 4 + (h % 24)
@@ -85,6 +86,19 @@ def replay_system_case(case):
                         at = ev["raw_start"] + o["cut"]["b"]
                     with open(path, "r+b") as fh:
                         fh.truncate(at)
+                elif op == "defragment":
+                    if os.path.exists(hidden):
+                        os.remove(hidden)
+                    if os.path.exists(idxp):
+                        os.remove(idxp)          # the copy is made from the data file alone
+                    dst = os.path.join(tmp, "copy.tdms")
+                    TdmsWriter.defragment(path, dst, index_file=True)
+                    os.replace(dst, path)
+                    os.replace(dst + "_index", idxp)
+                    copy_segments = len(parser.parse(open(path, "rb").read()))
+                    for nm in ("x", "y"):
+                        # what survives is a prefix of what was written; later sessions append to it
+                        written[nm] = written[nm][:o["len"][nm]] if o["exists"][nm] else []
                 elif op == "open_reader":
                     if o["idx"] and os.path.exists(hidden):
                         os.rename(hidden, idxp)
@@ -153,6 +167,8 @@ def replay_system_case(case):
     nontrivial = "crash" in ops or ops.count("open_reader") >= 1
     return {"n": n, "keys": [zlib.crc32(repr(hist).encode())] if nontrivial else [], "fails": fails, "validated": 1,
             "obs": {"behaviours_with_crash": 1 if "crash" in ops else 0,
+                    "behaviours_with_defragment": 1 if "defragment" in ops else 0,
+                    "behaviours_appending_to_a_defragmented_copy": 1 if ("defragment" in ops and "write" in ops[ops.index("defragment"):]) else 0,
                     "behaviours_with_two_sessions": 1 if ops.count("open_writer") >= 2 else 0}}
 
 
